@@ -11,8 +11,8 @@ import (
 )
 
 func init() {
-	register(&Rule{ID: "C11.VISIT", Min: 12, Doc: "every child of an expression node is checked on every path (or a diagnostic is emitted): no sub-expression escapes the semantic and untrusted-input checks", Run: runC11Visit})
-	register(&Rule{ID: "C11.SITE", Min: 2, Doc: "the untrusted-input checker is enabled exactly for run: scripts and the script input of actions/github-script", Run: runC11Site})
+	register(&Rule{ID: "C11.VISIT", Min: 17, Doc: "every child of an expression node is checked on every path (or a diagnostic is emitted): no sub-expression escapes the semantic and untrusted-input checks", Run: runC11Visit})
+	register(&Rule{ID: "C11.SITE", Min: 3, Doc: "the untrusted-input checker is enabled exactly for run: scripts and the script input of actions/github-script", Run: runC11Site})
 	register(&Rule{ID: "C11.PAIR", Min: 2, Doc: "enter/leave callbacks of the untrusted checker bracket every node; Init before and OnVisitEnd after the walk", Run: runC11Pair})
 	register(&Rule{ID: "C11.ORDER", Min: 2, Doc: "the index of an index access is visited before its operand in both traversals", Run: runC11Order})
 	register(&Rule{ID: "C11.SAFE", Min: 1, Doc: "the sanitising functions are exactly contains, startsWith, endsWith", Run: runC11Safe})
@@ -163,18 +163,77 @@ func runC11Visit(c *Ctx) {
 			k := FuncName(fn) + "|children of " + typeStr(n.Type())
 			occ[k]++
 			construct := fmt.Sprintf("%s#%d", k, occ[k])
-			missing := visitObligation(p, fn, n, children)
+			missing := visitObligation(p, fn, n, children, nil)
 			if missing == "" {
 				c.ok(construct, n.Pos(), "on every path to a return: the node is handed on whole, or each of {"+strings.Join(children, ", ")+"} is checked, or a diagnostic is emitted")
 			} else {
 				c.bad(construct, n.Pos(), missing+": a sub-expression is neither type-checked nor seen by the untrusted-input and availability checks when it occurs at that position")
 			}
 		}
+		// a dispatcher (type tests on its node parameter) without a case for a node kind that has children: on the paths
+		// that take no case the node must be handed on whole (or a diagnostic emitted), otherwise the children of that
+		// kind are never visited by this traversal
+		idx := isVisitorFunc(p, fn)
+		if idx >= len(fn.Params) || typeStr(fn.Params[idx].Type()) != "ExprNode" {
+			continue
+		}
+		prm := fn.Params[idx]
+		tested := map[string]bool{}
+		taken := map[*ssa.BasicBlock]bool{}
+		eachInstr(fn, func(_ *ssa.BasicBlock, _ int, in ssa.Instruction) {
+			ta, ok := in.(*ssa.TypeAssert)
+			if !ok || !ta.CommaOk || ta.X != prm {
+				return
+			}
+			tested[typeStr(ta.AssertedType)] = true
+			for _, ref := range *ta.Referrers() {
+				if okv, isEx := ref.(*ssa.Extract); isEx && okv.Index == 1 {
+					for _, r2 := range *okv.Referrers() {
+						if ifi, isIf := r2.(*ssa.If); isIf {
+							taken[ifi.Block().Succs[0]] = true
+						}
+					}
+				}
+			}
+		})
+		if len(tested) == 0 {
+			continue
+		}
+		for _, kind := range nodeKindsWithChildren(p) {
+			if tested[typeStr(kind)] {
+				continue
+			}
+			children, _ := exprNodeChildren(p, kind)
+			construct := FuncName(fn) + "|no case for " + typeStr(kind)
+			if missing := visitObligation(p, fn, prm, children, taken); missing == "" {
+				c.ok(construct, fn.Pos(), "on every path that takes no case the node is handed on whole to a traversal function, or a diagnostic is emitted")
+			} else {
+				c.bad(construct, fn.Pos(), "a "+typeStr(kind)+" takes no case and is not handed on: its children {"+strings.Join(children, ", ")+"} are never visited by this traversal")
+			}
+		}
 	}
 }
 
-// visitObligation runs a forward must-analysis: which children of n have been handed to a visitor.
-func visitObligation(p *Prog, fn *ssa.Function, n ssa.Value, children []string) string {
+// nodeKindsWithChildren: the concrete expression node types (pointers) that have sub-expressions, in name order.
+func nodeKindsWithChildren(p *Prog) []types.Type {
+	var out []types.Type
+	sc := p.Main.Types.Scope()
+	for _, nm := range sc.Names() {
+		tn, ok := sc.Lookup(nm).(*types.TypeName)
+		if !ok || tn.IsAlias() {
+			continue
+		}
+		pt := types.NewPointer(tn.Type())
+		if ch, ok := exprNodeChildren(p, pt); ok && len(ch) > 0 {
+			out = append(out, pt)
+		}
+	}
+	return out
+}
+
+// visitObligation runs a forward must-analysis: which children of n have been handed to a visitor. Paths that enter a
+// block of `stop` are not considered.
+func visitObligation(p *Prog, fn *ssa.Function, n ssa.Value, children []string, stop map[*ssa.BasicBlock]bool) string {
 	defBlock := fn.Blocks[0]
 	if in, ok := n.(ssa.Instruction); ok {
 		defBlock = in.Block()
@@ -260,42 +319,18 @@ func visitObligation(p *Prog, fn *ssa.Function, n ssa.Value, children []string) 
 		}
 		gen[b] = g
 	}
-	// a slice child (Args) is visited by a loop over it: the loop may run zero times, so the child counts as
-	// visited from the block that takes its length for the loop, provided the loop body hands each element on
-	elemVisited := map[string]bool{}
-	for _, b := range fn.Blocks {
-		for _, in := range b.Instrs {
-			if call, ok := in.(ssa.CallInstruction); ok {
-				f := staticCallee(call.Common())
-				if idx := isVisitorFunc(p, f); f != nil && idx >= 0 && idx < len(call.Common().Args) {
-					if ld, ok := call.Common().Args[idx].(*ssa.UnOp); ok {
-						if ia, ok := ld.X.(*ssa.IndexAddr); ok {
-							if fld := fieldOf(ia.X); fld != "" {
-								elemVisited[fld] = true
-							}
-						}
-					}
-				}
-			}
+	// a slice child (Args) is visited by a loop that hands every element on: the index runs from 0 to len(child), the
+	// visitor call happens in every iteration, and the loop is left only when the index is exhausted. Such a loop
+	// establishes the child from its header on (it may run zero times).
+	for _, h := range loopHeaders(fn) {
+		for _, fld := range fullSliceVisit(p, h, fieldOf) {
+			gen[h][fld] = true
 		}
 	}
-	for _, b := range fn.Blocks {
-		for _, in := range b.Instrs {
-			if call, ok := in.(*ssa.Call); ok {
-				if bi, ok := call.Call.Value.(*ssa.Builtin); ok && bi.Name() == "len" {
-					if fld := fieldOf(call.Call.Args[0]); fld != "" && elemVisited[fld] {
-						// only the length taken for a range loop counts: the call's block must lead into a loop
-						for _, ref := range *call.Referrers() {
-							if bo, ok := ref.(*ssa.BinOp); ok && bo.Op == token.LSS {
-								gen[b][fld] = true
-							}
-						}
-					}
-				}
-			}
-		}
-	}
-	// forward must dataflow (intersection at joins), restricted to blocks dominated by the definition
+	// forward must dataflow along the paths that start at the definition: only blocks reachable from it take part, and
+	// at a join only the predecessors that are themselves reachable from it are intersected (a return in the join
+	// block after a type switch is reached from the case body and has to find the children handed on there).
+	reach := reachableBlocks([]*ssa.BasicBlock{defBlock}, stop)
 	in := map[*ssa.BasicBlock]map[string]bool{}
 	out := map[*ssa.BasicBlock]map[string]bool{}
 	top := func() map[string]bool {
@@ -312,12 +347,18 @@ func visitObligation(p *Prog, fn *ssa.Function, n ssa.Value, children []string) 
 	for iter := 0; changed && iter < 50; iter++ {
 		changed = false
 		for _, b := range fn.Blocks {
+			if !reach[b] {
+				continue
+			}
 			var cur map[string]bool
 			if b == defBlock {
 				cur = map[string]bool{}
 			} else {
 				first := true
 				for _, pr := range b.Preds {
+					if !reach[pr] {
+						continue
+					}
 					if first {
 						cur = map[string]bool{}
 						for k := range out[pr] {
@@ -362,7 +403,7 @@ func visitObligation(p *Prog, fn *ssa.Function, n ssa.Value, children []string) 
 		if !ok {
 			continue
 		}
-		if !(b == defBlock || defBlock.Dominates(b)) {
+		if !reach[b] {
 			continue
 		}
 		st := out[b]
@@ -371,7 +412,11 @@ func visitObligation(p *Prog, fn *ssa.Function, n ssa.Value, children []string) 
 		}
 		for ch := range all {
 			if !st[ch] {
-				missing = append(missing, fmt.Sprintf("%s is not checked on a path to the return at %s", ch, p.Pos(ret.Pos())))
+				at := "the return at " + p.Pos(ret.Pos())
+				if !ret.Pos().IsValid() {
+					at = "the end of the function"
+				}
+				missing = append(missing, fmt.Sprintf("%s is not checked on a path to %s", ch, at))
 			}
 		}
 	}
@@ -380,6 +425,157 @@ func visitObligation(p *Prog, fn *ssa.Function, n ssa.Value, children []string) 
 		return missing[0]
 	}
 	return ""
+}
+
+// fullSliceVisit: the loop with header h hands every element of a slice child of the node to a visitor. Returns the
+// child's field name (or, for a loop over a slice literal built from children, the fields stored in it). The loop has the shape `i from 0; i < len(child); i+1` (a range loop or a counting loop), the
+// visitor receives child[i], its call dominates every back edge, and the only exit is the header's bound test.
+func fullSliceVisit(p *Prog, h *ssa.BasicBlock, fieldOf func(ssa.Value) string) []string {
+	ifi, ok := h.Instrs[len(h.Instrs)-1].(*ssa.If)
+	if !ok {
+		return nil
+	}
+	body := naturalLoop(h)
+	if !body[h.Succs[0]] || body[h.Succs[1]] {
+		return nil
+	}
+	bo, ok := ifi.Cond.(*ssa.BinOp)
+	if !ok || bo.Op != token.LSS {
+		return nil
+	}
+	lc, ok := bo.Y.(*ssa.Call)
+	if !ok || len(lc.Call.Args) != 1 {
+		return nil
+	}
+	if bi, ok := lc.Call.Value.(*ssa.Builtin); !ok || bi.Name() != "len" {
+		return nil
+	}
+	over := lc.Call.Args[0]
+	var flds []string
+	if fld := fieldOf(over); fld != "" {
+		flds = []string{fld}
+	} else if sl, ok := over.(*ssa.Slice); ok && sl.Low == nil && sl.High == nil {
+		// []ExprNode{n.Left, n.Right}: an array written once per position and used for nothing else
+		al, ok := sl.X.(*ssa.Alloc)
+		if !ok {
+			return nil
+		}
+		for _, ref := range *al.Referrers() {
+			switch r := ref.(type) {
+			case *ssa.Slice:
+				if r != sl {
+					return nil
+				}
+			case *ssa.IndexAddr:
+				for _, r2 := range *r.Referrers() {
+					st, ok := r2.(*ssa.Store)
+					if !ok || st.Addr != r || !st.Block().Dominates(h) {
+						return nil
+					}
+					if fld := fieldOf(st.Val); fld != "" {
+						flds = append(flds, fld)
+					}
+				}
+			default:
+				return nil
+			}
+		}
+	}
+	if len(flds) == 0 {
+		return nil
+	}
+	// the index: counts every position from 0
+	counts := func(iv ssa.Value) bool {
+		phiOf := func(ph *ssa.Phi, start int64, next ssa.Value) bool {
+			if ph.Block() != h {
+				return false
+			}
+			for i, e := range ph.Edges {
+				if body[h.Preds[i]] {
+					if e != next {
+						return false
+					}
+				} else if k, ok := constInt(e); !ok || k != start {
+					return false
+				}
+			}
+			return true
+		}
+		plusOne := func(v ssa.Value) *ssa.Phi {
+			add, ok := v.(*ssa.BinOp)
+			if !ok || add.Op != token.ADD {
+				return nil
+			}
+			if k, ok := constInt(add.Y); !ok || k != 1 {
+				return nil
+			}
+			ph, _ := add.X.(*ssa.Phi)
+			return ph
+		}
+		if ph, ok := iv.(*ssa.Phi); ok {
+			// for i := 0; i < len; i++
+			for i, e := range ph.Edges {
+				if body[h.Preds[i]] {
+					return plusOne(e) == ph && phiOf(ph, 0, e)
+				}
+			}
+			return false
+		}
+		// range: the phi starts at -1 and is incremented before the test
+		if ph := plusOne(iv); ph != nil {
+			return phiOf(ph, -1, iv)
+		}
+		return false
+	}
+	if !counts(bo.X) {
+		return nil
+	}
+	// left only through the bound test
+	for b := range body {
+		if b == h {
+			continue
+		}
+		for _, s := range b.Succs {
+			if !body[s] {
+				return nil
+			}
+		}
+		if len(b.Succs) == 0 {
+			return nil
+		}
+	}
+	// child[i] handed to a visitor in every iteration
+	for b := range body {
+		for _, in := range b.Instrs {
+			call, ok := in.(ssa.CallInstruction)
+			if !ok {
+				continue
+			}
+			f := staticCallee(call.Common())
+			idx := isVisitorFunc(p, f)
+			if f == nil || idx < 0 || idx >= len(call.Common().Args) {
+				continue
+			}
+			ld, ok := unwrap(call.Common().Args[idx]).(*ssa.UnOp)
+			if !ok {
+				continue
+			}
+			ia, ok := ld.X.(*ssa.IndexAddr)
+			if !ok || ia.Index != bo.X || !(ia.X == over || len(flds) == 1 && fieldOf(ia.X) == flds[0]) {
+				continue
+			}
+			every := true
+			for _, pr := range h.Preds {
+				if body[pr] && !(b == pr || b.Dominates(pr)) {
+					every = false
+				}
+			}
+			if every {
+				return flds
+			}
+		}
+	}
+	return nil
 }
 
 func runC11Site(c *Ctx) {
@@ -426,6 +622,8 @@ func runC11Site(c *Ctx) {
 		c.bad("package|untrusted checker enabled", 0, "the untrusted-input check is never enabled")
 		return
 	}
+	var script *ssa.Function
+	withScript := 0
 	for _, s := range trues {
 		name := FuncName(s.fn)
 		if name != "(*RuleExpression).checkScriptString" {
@@ -433,6 +631,10 @@ func runC11Site(c *Ctx) {
 			continue
 		}
 		c.ok(name+"|enables the untrusted checker", s.call.Pos(), "only checkScriptString passes checkUntrusted=true")
+		if script != nil {
+			continue
+		}
+		script = s.fn
 		// callers of checkScriptString
 		for _, e := range p.callersOf(s.fn) {
 			if e.Site == nil {
@@ -444,28 +646,175 @@ func runC11Site(c *Ctx) {
 			construct := FuncName(e.Caller.Func) + "|script position"
 			switch {
 			case fs["ExecRun.Run"]:
-				c.ok(construct+" run:", e.Site.Pos(), "the run: script")
+				// whether every run: script gets here is decided below ("run: checked as a script")
 			case fs["Input.Value"]:
-				// must be guarded by the github-script prefix and the input name "script"
+				// guarded by the github-script prefix and the input name "script", and by nothing else that could leave
+				// the script of a github-script step unchecked
+				withScript++
 				hasPrefix, hasName := false, false
-				for ifi := range controllingConds(e.Site.Block()) {
-					if usesCall(ifi.Cond, "strings.HasPrefix", "actions/github-script@") {
+				extra := ""
+				for ifi, outcome := range controllingConds(e.Site.Block()) {
+					switch {
+					case outcome && usesCall(ifi.Cond, "strings.HasPrefix", "actions/github-script@"):
 						hasPrefix = true
-					}
-					if comparesWith(ifi.Cond, "script") && comparesLowerName(ifi.Cond) {
+					case outcome && comparesWith(ifi.Cond, "script") && comparesLowerName(ifi.Cond):
 						hasName = true
+					case structuralCond(ifi):
+					default:
+						extra = p.Pos(ifi.Pos())
+						if !ifi.Pos().IsValid() {
+							extra = p.Pos(ifi.Cond.Pos())
+						}
 					}
 				}
-				if hasPrefix && hasName {
-					c.ok(construct+" with.script", e.Site.Pos(), "only under uses: actions/github-script@... and input name script")
-				} else {
+				switch {
+				case !hasPrefix || !hasName:
 					c.bad(construct+" with.script", e.Site.Pos(), "a with: input is checked as a script without the guards `uses` starts with actions/github-script@ and key == script")
+				case extra != "":
+					c.bad(construct+" with.script", e.Site.Pos(), "the script input of actions/github-script is checked as a script only under a further condition (at "+extra+"): when it does not hold, untrusted inputs in the script are not reported")
+				default:
+					c.ok(construct+" with.script", e.Site.Pos(), "under uses: actions/github-script@... and input name script, and under no other condition")
 				}
 			default:
 				c.bad(construct, e.Site.Pos(), "checkScriptString is applied to something other than ExecRun.Run or a with: input")
 			}
 		}
 	}
+	if script == nil {
+		return
+	}
+	if withScript == 0 {
+		c.bad("(*RuleExpression).VisitStep|script position with.script", script.Pos(), "the script input of actions/github-script is never checked as a script")
+	}
+	// every run: script reaches the script check: where the strings of an *ExecRun are checked, its Run field is handed to
+	// checkScriptString on every path (apart from the paths on which the step or the script is nil)
+	nRun := 0
+	for _, fn := range p.Funcs {
+		if !inModule(fn) || fn.Blocks == nil || fn.Signature.Recv() == nil || pointeeName(fn.Signature.Recv().Type()) != "RuleExpression" {
+			continue
+		}
+		var execs []ssa.Value
+		eachInstr(fn, func(_ *ssa.BasicBlock, _ int, in ssa.Instruction) {
+			switch x := in.(type) {
+			case *ssa.TypeAssert:
+				if !x.CommaOk && typeStr(x.AssertedType) == "*ExecRun" {
+					execs = append(execs, x)
+				}
+			case *ssa.Extract:
+				if ta, ok := x.Tuple.(*ssa.TypeAssert); ok && x.Index == 0 && typeStr(ta.AssertedType) == "*ExecRun" {
+					execs = append(execs, x)
+				}
+			}
+		})
+		for _, e := range execs {
+			nRun++
+			construct := fmt.Sprintf("%s|run: checked as a script#%d", FuncName(fn), nRun)
+			if miss := runReachesScript(p, fn, e, script, 0); miss == "" {
+				c.ok(construct, e.Pos(), "on every path on which the step is a run: step with a script, ExecRun.Run is handed to checkScriptString")
+			} else {
+				c.bad(construct, e.Pos(), miss+": untrusted inputs in that run: script are not reported")
+			}
+		}
+	}
+	if nRun == 0 {
+		c.bad("(*RuleExpression).VisitStep|run: checked as a script", script.Pos(), "no function of the expression rule looks at the *ExecRun of a step: run: scripts are never checked for untrusted inputs")
+	}
+}
+
+// structuralCond: a condition that does not select among scripts: a nil test, the test of a type switch / comma-ok
+// assertion, the bound test of a range loop or the "more elements" flag of a map range.
+func structuralCond(ifi *ssa.If) bool {
+	if _, _, ok := nilTest(ifi); ok {
+		return true
+	}
+	switch x := ifi.Cond.(type) {
+	case *ssa.Extract:
+		switch x.Tuple.(type) {
+		case *ssa.TypeAssert:
+			return x.Index == 1
+		case *ssa.Next:
+			return x.Index == 0
+		}
+	case *ssa.BinOp:
+		return isRangeIndexCond(x)
+	}
+	return false
+}
+
+// runReachesScript: from the point where exec (an *ExecRun) is known, every path to a return hands exec.Run to the script
+// check, directly or by handing exec to a function of the rule for which the same holds. Paths on which exec or exec.Run
+// is nil are left out. Returns "" or a description of the path that misses the check.
+func runReachesScript(p *Prog, fn *ssa.Function, exec ssa.Value, script *ssa.Function, depth int) string {
+	defBlock := fn.Blocks[0]
+	if in, ok := exec.(ssa.Instruction); ok {
+		defBlock = in.Block()
+	}
+	if ex, ok := exec.(*ssa.Extract); ok {
+		if ta, ok := ex.Tuple.(*ssa.TypeAssert); ok && ta.CommaOk {
+			for _, ref := range *ta.Referrers() {
+				if okv, isEx := ref.(*ssa.Extract); isEx && okv.Index == 1 {
+					for _, r2 := range *okv.Referrers() {
+						if ifi, isIf := r2.(*ssa.If); isIf && len(ifi.Block().Succs[0].Preds) == 1 {
+							defBlock = ifi.Block().Succs[0]
+						}
+					}
+				}
+			}
+		}
+	}
+	isRun := func(v ssa.Value) bool {
+		f, base := fieldLoad(v)
+		return f == "ExecRun.Run" && base == exec
+	}
+	// blocks in which the script is handed on
+	done := map[*ssa.BasicBlock]bool{}
+	eachInstr(fn, func(b *ssa.BasicBlock, _ int, in ssa.Instruction) {
+		call, ok := in.(*ssa.Call)
+		if !ok {
+			return
+		}
+		g := staticCallee(&call.Call)
+		if g == nil {
+			return
+		}
+		for i, a := range call.Call.Args {
+			if g == script && i == 1 && isRun(a) {
+				done[b] = true
+			}
+			if a == exec && g != script && depth < 2 && inModule(g) && g.Blocks != nil && i < len(g.Params) && runReachesScript(p, g, g.Params[i], script, depth+1) == "" {
+				done[b] = true
+			}
+		}
+	})
+	// search for a return reached without it
+	seen := map[*ssa.BasicBlock]bool{defBlock: true}
+	work := []*ssa.BasicBlock{defBlock}
+	for len(work) > 0 {
+		b := work[len(work)-1]
+		work = work[:len(work)-1]
+		if done[b] {
+			continue
+		}
+		last := b.Instrs[len(b.Instrs)-1]
+		if ret, ok := last.(*ssa.Return); ok {
+			at := "the return at " + p.Pos(ret.Pos())
+			if !ret.Pos().IsValid() {
+				at = "the end of the function"
+			}
+			return "a path from the *ExecRun to " + at + " does not hand ExecRun.Run to checkScriptString"
+		}
+		skip := -1
+		if v, nilSucc, ok := nilTest(last); ok && (v == exec || isRun(v)) {
+			skip = nilSucc
+		}
+		for i, s := range b.Succs {
+			if i != skip && !seen[s] {
+				seen[s] = true
+				work = append(work, s)
+			}
+		}
+	}
+	return ""
 }
 
 func usesCall(v ssa.Value, fn, constArg string) bool {
@@ -566,8 +915,15 @@ func runC11Pair(c *Ctx) {
 			}
 			return true
 		}
-		if !onlyNilGuard(enter) || !onlyNilGuard(leave) {
+		if !onlyNilGuard(enter) || !onlyNilGuard(leave) || returnsWithout(check, enter) || returnsWithout(check, leave) {
 			bracket = false
+		}
+		// both are given the node being visited
+		for _, in := range []ssa.Instruction{enter, leave} {
+			cc := in.(ssa.CallInstruction).Common()
+			if len(cc.Args) < 2 || len(check.Params) < 2 || cc.Args[1] != ssa.Value(check.Params[1]) {
+				bracket = false
+			}
 		}
 		// nothing else is called before them
 		eachInstr(check, func(_ *ssa.BasicBlock, _ int, in ssa.Instruction) {
@@ -589,7 +945,25 @@ func runC11Pair(c *Ctx) {
 	}
 	// forwarders (when the callbacks are not called directly) hand the node to the untrusted checker when it exists
 	for _, f := range fwd {
-		c.ok(FuncName(f)+"|forwards", f.Pos(), "makes exactly one call of the untrusted checker's callback")
+		var cb ssa.CallInstruction
+		for _, want := range []string{"(*UntrustedInputChecker).OnVisitNodeEnter", "(*UntrustedInputChecker).OnVisitNodeLeave"} {
+			if cs := findCalls(f, want); len(cs) == 1 {
+				cb = cs[0]
+			}
+		}
+		construct := FuncName(f) + "|forwards"
+		switch {
+		case cb == nil:
+			c.bad(construct, f.Pos(), "the forwarder does not make exactly one call of the untrusted checker's callback")
+		case len(cb.Common().Args) < 2 || len(f.Params) < 2 || cb.Common().Args[1] != ssa.Value(f.Params[1]):
+			c.bad(construct, cb.Pos(), "the forwarder does not hand on the node it was given")
+		case !isUntrustedField(cb.Common().Args[0], f.Params[0]):
+			c.bad(construct, cb.Pos(), "the forwarder does not call the untrusted checker of its own receiver")
+		case returnsWithout(f, cb):
+			c.bad(construct, cb.Pos(), "the callback is skipped on a path on which the untrusted checker exists: the bottom-up matcher misses nodes (enter and leave calls no longer pair up)")
+		default:
+			c.ok(construct, cb.Pos(), "every path on which the receiver's untrusted checker is not nil hands the node to its callback")
+		}
 	}
 	// in Check: Init dominates the walk, the walk dominates OnVisitEnd
 	inits := findCalls(Check, "(*UntrustedInputChecker).Init")
@@ -602,6 +976,41 @@ func runC11Pair(c *Ctx) {
 	} else {
 		c.bad("(*ExprSemanticsChecker).Check|Init, walk, OnVisitEnd, Errs", Check.Pos(), "the untrusted checker is not initialised before / finished after the walk, or its errors are collected before OnVisitEnd: the last chain of an expression is never reported")
 	}
+}
+
+// isUntrustedField: v is a load of recv.untrusted.
+func isUntrustedField(v ssa.Value, recv ssa.Value) bool {
+	f, base := fieldLoad(v)
+	return f == "ExprSemanticsChecker.untrusted" && base == recv
+}
+
+// returnsWithout: some path from the entry of fn to a return does not execute `in`, although the receiver's untrusted
+// checker is not nil on it (the nil edges of tests of that field are not followed).
+func returnsWithout(fn *ssa.Function, in ssa.Instruction) bool {
+	seen := map[*ssa.BasicBlock]bool{fn.Blocks[0]: true}
+	work := []*ssa.BasicBlock{fn.Blocks[0]}
+	for len(work) > 0 {
+		b := work[len(work)-1]
+		work = work[:len(work)-1]
+		if b == in.Block() {
+			continue
+		}
+		last := b.Instrs[len(b.Instrs)-1]
+		if _, ok := last.(*ssa.Return); ok {
+			return true
+		}
+		skip := -1
+		if v, nilSucc, ok := nilTest(last); ok && len(fn.Params) > 0 && isUntrustedField(v, fn.Params[0]) {
+			skip = nilSucc
+		}
+		for i, s := range b.Succs {
+			if i != skip && !seen[s] {
+				seen[s] = true
+				work = append(work, s)
+			}
+		}
+	}
+	return false
 }
 
 // reachesAfter: b comes after a on every path that executes both (a's block dominates b's, or same block and later).
